@@ -156,10 +156,10 @@ func (sv *server) answerFor(id []byte) []byte {
 	h.Write(id)
 	sum := h.Sum(nil)
 	n := int(binary.LittleEndian.Uint16(sum[:2])) % 700
-	if sum[2]%8 == 0 {
+	if sum[2]%32 == 0 {
 		n = 0
 	}
-	if sum[2]%8 == 1 {
+	if sum[2]%32 == 1 {
 		n = 253 + int(sum[3]%3)
 	}
 	out := make([]byte, 0, n+32)
